@@ -91,7 +91,7 @@ func (c *cache) get(logRange dragonboat.LogRange) ([]raftpb.Entry, dragonboat.Lo
 	}
 
 	smallestIndex := c.smallestIndex()
-	if smallestIndex > logRange.LastIndex {
+	if smallestIndex >= logRange.LastIndex {
 		// No queried entries are in the cache.
 		return nil, logRange, appendIndices
 	}
